@@ -26,7 +26,7 @@ def family(pattern):
 
 
 def find_family(fname):
-    for rx, cls in FAMILIES:
+    for rx, cls in reversed(FAMILIES):
         if rx.search(fname):
             return cls
     return None
@@ -1077,3 +1077,148 @@ class TokenizerFamily(Family):
     @classmethod
     def bounded_source(cls, prog, fname):
         return 'csv', cls.source('', 4), 'every input up to length 4 over a 17-character alphabet (letters, digit, sign, dot, slash, star, blank, quotes, LF, <=>, braces, e, e-acute) x the four built-in tokenizers, no options'
+
+
+SYMBOL_TEST = '''package generic
+
+import (
+	"testing"
+
+	"github.com/pip-services3-gox/pip-services3-expressions-gox/io"
+	"github.com/pip-services3-gox/pip-services3-expressions-gox/tokenizers"
+)
+
+// C16 on whole symbol tables (bounded): every set of up to 3 symbols of length 1..3 over {<, =, >} in every
+// registration order, each with its own token type, against every input up to length 5 over {<, =, >, a}:
+// the state must return the longest registered symbol that is a prefix of the remaining input (else the single
+// next character as Symbol), with that symbol's type and text, consuming exactly that many characters - also
+// on a second pass over the same table (reading other symbols must not alter the text of existing ones).
+func TestVerifReplay(t *testing.T) {
+	abc := []rune{'<', '=', '>'}
+	var syms []string
+	var gs func(cur []rune, n int)
+	gs = func(cur []rune, n int) { if len(cur) > 0 { syms = append(syms, string(cur)) }; if n == 0 { return }; for _, c := range abc { gs(append(cur, c), n-1) } }
+	gs(nil, 3)
+	var inputs []string
+	var gi func(cur []rune, n int)
+	gi = func(cur []rune, n int) { if len(cur) > 0 { inputs = append(inputs, string(cur)) }; if n == 0 { return }; for _, c := range []rune{'<', '=', '>', 'a'} { gi(append(cur, c), n-1) } }
+	gi(nil, %(inlen)d)
+	check := func(reg []string) {
+		st := NewGenericSymbolState()
+		typ := map[string]int{}
+		for i, s := range reg { st.Add(s, 100+i); typ[s] = 100 + i }
+		// registering a longer symbol makes its first character a plain Symbol unless registered itself
+		for pass := 0; pass < 2; pass++ {
+			for _, in := range inputs {
+				runes := []rune(in)
+				sc := io.NewStringScanner(in)
+				pos := 0
+				for pos < len(runes) {
+					tok := st.NextToken(sc, nil)
+					want := string(runes[pos : pos+1]); wtyp := tokenizers.Symbol
+					if ty, ok := typ[want]; ok { wtyp = ty }
+					for l := 3; l >= 2; l-- {
+						if pos+l <= len(runes) { if ty, ok := typ[string(runes[pos:pos+l])]; ok { want = string(runes[pos : pos+l]); wtyp = ty; break } }
+					}
+					if tok.Value() != want || tok.Type() != wtyp {
+						t.Fatalf("symbols %%q, input %%q at %%d (pass %%d): got %%q type %%d, longest registered prefix is %%q type %%d", reg, in, pos, pass, tok.Value(), tok.Type(), want, wtyp)
+					}
+					pos += len([]rune(want))
+					// exact consumption
+					rest := io.NewStringScanner(in); for i := 0; i < pos; i++ { rest.Read() }
+					if sc.Peek() != rest.Peek() { t.Fatalf("symbols %%q, input %%q: consumed a wrong number of characters after %%q", reg, in, want) }
+				}
+			}
+		}
+	}
+	n := len(syms)
+	for i := 0; i < n; i++ {
+		check([]string{syms[i]})
+		for j := 0; j < n; j++ {
+			if j == i { continue }
+			check([]string{syms[i], syms[j]})
+			for k := 0; k < n; k += %(kstep)d {
+				if k == i || k == j { continue }
+				check([]string{syms[i], syms[j], syms[k]})
+			}
+		}
+	}
+}
+'''
+
+
+@family(r'/tokenizers/generic\.Symbol|/tokenizers/generic\.GenericSymbolState')
+class SymbolFamily(Family):
+    @classmethod
+    def source(cls, inlen=4, kstep=5):
+        return SYMBOL_TEST % {'inlen': inlen, 'kstep': kstep}
+
+    def inputs(self):
+        return {}
+
+    def test_source(self, vals):
+        return 'tokenizers/generic', self.source()
+
+    @classmethod
+    def bounded_source(cls, prog, fname):
+        return ('tokenizers/generic', cls.source(),
+                'symbol sets of size <= 3 (length 1..3 over {<,=,>}, every order; third symbol sampled every 5th) x inputs up to length 4 over {<,=,>,a}, two passes')
+
+
+QUOTE_TEST = '''package csv_test
+
+import (
+	"testing"
+
+	ctok "github.com/pip-services3-gox/pip-services3-expressions-gox/calculator/tokenizers"
+	"github.com/pip-services3-gox/pip-services3-expressions-gox/csv"
+	"github.com/pip-services3-gox/pip-services3-expressions-gox/io"
+	"github.com/pip-services3-gox/pip-services3-expressions-gox/tokenizers"
+	"github.com/pip-services3-gox/pip-services3-expressions-gox/tokenizers/generic"
+)
+
+// C14 (bounded): every string up to length %(n)d over {a, ', ", e-acute, U+4E2D} and both quote characters:
+// decoding never fails; decode(encode(s)) == s; for the expression and CSV states the encoded form placed in a
+// stream (followed by end of input or by a non-quote character) is read back as exactly one token whose
+// decoded value is s.
+func TestVerifReplay(t *testing.T) {
+	states := map[string]tokenizers.IQuoteState{"generic": generic.NewGenericQuoteState(), "expression": ctok.NewExpressionQuoteState(), "csv": csv.NewCsvQuoteState()}
+	abc := []rune{'a', 39, 34, 0xe9, 0x4e2d}
+	var strs []string
+	var gen func(cur []rune, n int)
+	gen = func(cur []rune, n int) { strs = append(strs, string(cur)); if n == 0 { return }; for _, c := range abc { gen(append(cur, c), n-1) } }
+	gen(nil, %(n)d)
+	for name, st := range states {
+		for _, q := range []rune{39, 34} {
+			for _, s := range strs {
+				func() {
+					defer func() { if r := recover(); r != nil { t.Fatalf("%%s state: DecodeString(%%q, %%q) panicked: %%v", name, s, string(q), r) } }()
+					st.DecodeString(s, q)
+				}()
+				if name == "generic" && len(s) > 0 && containsRune(s, q) { continue } // the generic state does not escape embedded quotes
+				enc := st.EncodeString(s, q)
+				if dec := st.DecodeString(enc, q); dec != s { t.Fatalf("%%s state: decode(encode(%%q, %%q)) = %%q (encoded %%q)", name, s, string(q), dec, enc) }
+				if name == "generic" { continue }
+				for _, tail := range []string{"", "a", " "} {
+					sc := io.NewStringScanner(enc + tail)
+					tok := st.NextToken(sc, nil)
+					if tok.Value() != enc { t.Fatalf("%%s state: %%q in a stream was read back as token %%q", name, enc+tail, tok.Value()) }
+					if st.DecodeString(tok.Value(), q) != s { t.Fatalf("%%s state: token %%q decodes to %%q, want %%q", name, tok.Value(), st.DecodeString(tok.Value(), q), s) }
+				}
+			}
+		}
+	}
+}
+
+func containsRune(s string, q rune) bool { for _, r := range s { if r == q { return true } }; return false }
+'''
+
+
+@family(r'QuoteState\)\.(EncodeString|DecodeString)')
+class QuoteFamily(Family):
+    def test_source(self, vals):
+        return 'csv', QUOTE_TEST % {'n': 4}
+
+    @classmethod
+    def bounded_source(cls, prog, fname):
+        return 'csv', QUOTE_TEST % {'n': 4}, 'all strings up to length 4 over {a, single quote, double quote, e-acute, U+4E2D} x both quote characters x the three quote states'
